@@ -82,6 +82,10 @@ func JSONWriteIntProp(b *[]byte, n string, d int64) (notEmpty bool) {
 }
 
 func JSONWriteFloatProp(b *[]byte, n string, f float64) (notEmpty bool) {
+	if math.IsNaN(f) || math.IsInf(f, 0) {
+		// JSON has no representation for these
+		return false
+	}
 	return JSONWriteProp(b, n, strconv.AppendFloat(nil, f, 'f', -1, 64))
 }
 
